@@ -77,6 +77,8 @@ func (c *verifCache) Close() error { return nil }
 // verifFile: one regular file of the layer: chunk table (concrete shape), genuine bytes G (symbolic) and the bytes
 // the backend actually delivers: genuine, or (when tamper is set) arbitrary bytes chosen per ReadAt call.
 type verifFile struct {
+	name    string // "" = "f<id>"
+	inSub   bool   // lives in the sub-directory "app" (id 2) instead of the root
 	id      uint32
 	offs    []int64
 	sizes   []int64
@@ -147,7 +149,7 @@ func (m *verifMeta) GetOffset(id uint32) (int64, error) {
 	return 0, errVerifMiss
 }
 func (m *verifMeta) GetAttr(id uint32) (metadata.Attr, error) {
-	if id == 1 {
+	if id == 1 || id == 2 {
 		return metadata.Attr{Mode: os.ModeDir | 0755}, nil
 	}
 	if f := m.file(id); f != nil {
@@ -159,11 +161,27 @@ func (m *verifMeta) GetChild(pid uint32, base string) (uint32, metadata.Attr, er
 	return 0, metadata.Attr{}, errVerifMiss
 }
 func (m *verifMeta) ForeachChild(id uint32, f func(name string, id uint32, mode os.FileMode) bool) error {
-	if id != 1 {
+	if id != 1 && id != 2 {
 		return nil
 	}
+	if id == 1 {
+		hasSub := false
+		for _, fl := range m.files {
+			hasSub = hasSub || fl.inSub
+		}
+		if hasSub && !f("app", 2, os.ModeDir|0755) {
+			return nil
+		}
+	}
 	for _, fl := range m.files {
-		if !f("f"+strconv.Itoa(int(fl.id)), fl.id, 0644) {
+		if fl.inSub != (id == 2) {
+			continue
+		}
+		name := fl.name
+		if name == "" {
+			name = "f" + strconv.Itoa(int(fl.id))
+		}
+		if !f(name, fl.id, 0644) {
 			break
 		}
 	}
@@ -232,6 +250,10 @@ func verifNewFile(id uint32, maxChunks, maxChunk int) *verifFile {
 	}
 	f.G = vr.Bytes("G", int(off))
 	for c := 0; c < n; c++ {
+		if vr.Native() {
+			// native replay runs the real SHA-256 verifier: record the real digests of the (now concrete) genuine bytes
+			f.digests[c] = digest.FromBytes(f.G[f.offs[c] : f.offs[c]+f.sizes[c]]).String()
+		}
 		verifGenuine[f.digests[c]] = f.G[f.offs[c] : f.offs[c]+f.sizes[c]]
 	}
 	return f
@@ -408,6 +430,53 @@ func VerifH_C01_verifyHandshakeThreads() {
 	<-done
 	if err == nil {
 		vr.Assert(verifCacheInvariant(c, meta.files), "accepted-layer-has-no-altered-chunk-cached")
+	}
+	vr.Reach("end")
+}
+
+
+// C15: after Cache() with the prefetch filter (offset < s) succeeded, every file whose offset is below s is read
+// completely with the backend unreachable; after Cache() without filter (background fetch) every regular file is.
+// File names include the reserved TOC name in a sub-directory (only the root entry of that name is the TOC).
+func VerifH_C15_cacheThenLocalReads() {
+	verifInstallDigestModel()
+	f1 := verifNewFile(7, 2, 2)
+	f2 := verifNewFile(8, 1, 2)
+	f2.inSub = vr.Bool("secondFileInSubdir")
+	if vr.Bool("secondFileHasTOCName") {
+		f2.name = "stargz.index.json"
+	}
+	c := &verifCache{m: map[string][]byte{}}
+	meta := &verifMeta{files: []*verifFile{f1, f2}, tocDgs: "sha256:toc"}
+	vrd, _ := NewReader(meta, c, "sha256:layer")
+	rd, err := vrd.VerifyTOC("sha256:toc")
+	vr.Assert(err == nil, "verifytoc")
+	// offsets of the files in the blob are 7000 and 8000 (model); the prefetch boundary is symbolic
+	var opts []CacheOption
+	boundary := int64(1) << 40
+	if vr.Bool("prefetchFilter") {
+		boundary = vr.I64("boundary")
+		vr.Assume(0 <= boundary && boundary <= 9000)
+		b := boundary
+		opts = append(opts, WithFilter(func(off int64) bool { return off < b }))
+	}
+	cerr := vrd.Cache(opts...)
+	vr.Assert(cerr == nil, "cache-succeeds-with-an-honest-backend")
+	for _, f := range meta.files {
+		isRootTOC := f.name == "stargz.index.json" && !f.inSub
+		if int64(f.id)*1000 >= boundary || isRootTOC {
+			continue
+		}
+		f.fail = true // registry unreachable from now on
+		ra, oerr := rd.OpenFile(f.id)
+		vr.Assert(oerr == nil, "openfile")
+		p := make([]byte, int(f.size()))
+		n, rerr := ra.ReadAt(p, 0)
+		vr.Assert(rerr == nil && int64(n) == f.size(), "prefetched-file-is-read-in-full-without-the-registry")
+		for i := 0; i < n; i++ {
+			vr.Assert(p[i] == f.G[i], "prefetched-bytes-exact")
+		}
+		vr.Assert(f.reads == 0 || f.fail, "no-backend-read")
 	}
 	vr.Reach("end")
 }
